@@ -154,7 +154,13 @@ func runSelfTests(prop string, base *Ctx) *selfTestResult {
 				return
 			}
 			edited := append([]byte{}, src[:locs[0][0]]...)
-			edited = append(edited, []byte(unescape(v.repl))...)
+			if strings.Contains(v.repl, "${") {
+				// capture groups of the pattern may be reused in the replacement
+				sub := re.FindSubmatchIndex(src)
+				edited = re.Expand(edited, []byte(unescape(v.repl)), src, sub)
+			} else {
+				edited = append(edited, []byte(unescape(v.repl))...)
+			}
 			edited = append(edited, src[locs[0][1]:]...)
 			if err := os.WriteFile(filepath.Join(dir, v.file), edited, 0o644); err != nil {
 				res.Failed++
